@@ -353,6 +353,25 @@ func registry() []entry {
 		e := stats.UDist{N1: 4, N2: 5}
 		return b.String() + fb(e.CDF(7)) + fb(e.PMF(7))
 	})
+	// tied U distributions whose subset counts exceed 2^53: from there on sums of counts round, so
+	// that the order in which a table is accumulated (the iteration order of a map, say) shows in
+	// the last bits - results must still be the same from call to call
+	add("UDist tied, counts beyond 2^53", func(s *shared) string {
+		var b strings.Builder
+		for _, d := range []stats.UDist{
+			{N1: 30, N2: 30, T: []int{10, 10, 10, 10, 10, 10}},
+			{N1: 30, N2: 34, T: []int{8, 8, 8, 8, 8, 8, 8, 8}},
+			{N1: 35, N2: 35, T: []int{5, 5, 5, 5, 5, 5, 5, 5, 5, 5, 5, 5, 5, 5}},
+			{N1: 33, N2: 31, T: []int{1, 2, 3, 4, 5, 6, 7, 8, 9, 10, 9}},
+		} {
+			mid := float64(d.N1*d.N2) / 2
+			for _, u := range []float64{mid - 40.5, mid - 3, mid, mid + 17.5} {
+				b.WriteString(fb(d.CDF(u)))
+				b.WriteString(fb(d.PMF(u)))
+			}
+		}
+		return b.String()
+	})
 	add("distributions", func(s *shared) string {
 		var b strings.Builder
 		nd := stats.NormalDist{Mu: 1, Sigma: 2}
